@@ -364,7 +364,34 @@ def formulas(src):
     out.append(flow_image2sky(tree))
     out.append(flow_sky2image(tree))
     out.append(fit_ranges(tree))
+    out.append(distort_starts(tree))
     return "\n\n".join(out) + "\n"
+
+
+# ---- Distort: start values per convention (TPV: the polynomial alone; SIP: a correction added to the input) ----
+
+def distort_starts(tree):
+    fn = _method(tree, "Distort")
+    _args(fn, ["self", "x", "y", "inverse"])
+    b = _body(fn)
+    sw = [n for n in b if isinstance(n, ast.If) and ast.unparse(n.test) == "self.distort['name'] == 'scamp'"]
+    if len(sw) != 1 or len(sw[0].orelse) != 1 or not isinstance(sw[0].orelse[0], ast.If) \
+            or ast.unparse(sw[0].orelse[0].test) != "self.distort['name'] == 'sip'" \
+            or not (len(sw[0].orelse[0].orelse) == 1 and isinstance(sw[0].orelse[0].orelse[0], ast.Raise)):
+        raise TranslateError("Distort: unexpected switch on the distortion name")
+    i = b.index(sw[0])
+    tail = [ast.unparse(n) for n in b[i + 1:]]
+    if tail != ["xp += Apply2DPolynomial(a, x, y)", "yp += Apply2DPolynomial(b, x, y)", "return (xp, yp)"]:
+        raise TranslateError("Distort: unexpected statements after the switch: %s" % tail)
+    exprs = {}
+    for nm, body in (("scamp", sw[0].body), ("sip", sw[0].orelse[0].body)):
+        if [ast.unparse(n.targets[0]) if isinstance(n, ast.Assign) else "?" for n in body] != ["xp", "yp"]:
+            raise TranslateError("Distort: the %s branch does not assign xp, yp" % nm)
+        t = Tr({"x": "x", "y": "y"})
+        exprs[nm] = (t.e(body[0].value), t.e(body[1].value))
+    return ("Definition src_distort (is_scamp : bool) (pa pb x y : R) : R * R :=\n"
+            "  let xp := if is_scamp then %s else %s in\n  let yp := if is_scamp then %s else %s in\n  (xp + pa, yp + pb)." % (
+                exprs["scamp"][0], exprs["sip"][0], exprs["scamp"][1], exprs["sip"][1]))
 
 
 # ---- the rectangle on which the inverse polynomial is fitted (which naxis / crpix index feeds which axis) ----
